@@ -216,6 +216,18 @@ CLAIMED["C03"] = (
     "FIFO order; loop._ready is the one private attribute used.",
     "DESIGN.md 3/C03",
 )
+CLAIMED["C07"] = (
+    "model-based: generated subscription documents and source event sequences run under the deterministic "
+    "scheduler (emissions, consumer pulls and per-event resolver gates interleaved by drawn schedules) and "
+    "compared event by event with the reference executor",
+    "The response stream yields exactly one response per delivered source event in source order, each equal "
+    "(data, error paths) to the reference executor run with that event as root value, ends exactly when the "
+    "source ends, surfaces a mid-stream source exception unchanged after the earlier responses, turns every "
+    "kind of source creation failure into one located errors-only response, never hangs, leaves no pending "
+    "task and finalises a generator source exactly once.",
+    "Events are root-type records or falsy Python values; the consumer pulls sequentially.",
+    "DESIGN.md 3/C07",
+)
 PENDING_REASON = (
     "check under construction in this session (DESIGN.md section 3 has its design); it is not claimed "
     "until it has run quietly on the unchanged tree at several seeds"
